@@ -12,13 +12,16 @@ Definition rep := list (list Z * N).
 Definition expand_rep (r : rep) : list Z :=
   flat_map (fun cn => N.iter (snd cn) (app (fst cn)) []) r.
 
-(* (length, polynomial hash, position-weighted sum); the harness computes the same in Python *)
-Definition hash (l : list Z) : Z * Z * Z :=
-  fold_left (fun st x => match st with (n, a, b) =>
-      (n + 1, (a * 257 + x + 1) mod 2147483647, (b + (n + 1) * x) mod 1000000007) end) l (0, 0, 0).
+(* (length, sum, sum of prefix sums, sum of those): the power moments of order 0..2 of the
+   byte string, as in Fletcher's checksum but without reduction.  Additions only -- [Z.modulo]
+   or a multiplication per sample is what makes vm_compute slow here.  The harness computes
+   the same in Python. *)
+Definition hash (l : list Z) : Z * Z * Z * Z :=
+  fold_left (fun st x => match st with (n, s1, s2, s3) =>
+      let s1' := s1 + x in let s2' := s2 + s1' in (n + 1, s1', s2', s3 + s2') end) l (0, 0, 0, 0).
 
-Definition hash_eqb (x y : Z * Z * Z) : bool :=
-  match x, y with (a, b, c), (a', b', c') => (a =? a') && (b =? b') && (c =? c') end.
+Definition hash_eqb (x y : Z * Z * Z * Z) : bool :=
+  match x, y with (a, b, c, d), (a', b', c', d') => (a =? a') && (b =? b') && (c =? c') && (d =? d') end.
 
 Inductive okind := KBin | KRaw | KWav | KTurbo.
 
